@@ -262,11 +262,28 @@ pub fn ops_strategy(n_peers: u8, mix: Mix, max_fragments: usize) -> BoxedStrateg
             v
         })
         .boxed();
+    // a genuine handshake packet of honest peer p is presented from another address BEFORE the
+    // original reaches its destination (the challenge it answers is still outstanding)
+    let early_replay = (0u8..n_peers.max(1), addr_sel(), any::<bool>())
+        .prop_map(|(p, from, with_record)| {
+            let peer = 1 + p;
+            vec![
+                Op::DeliverAll,
+                Op::Submit { from: peer, to: 0, body: Body::Ping, with_record },
+                Op::Deliver(0),
+                Op::AnswerWru { node: 0, sel: 0, know: Know::Current },
+                Op::Deliver(0),
+                // the newest logged datagram is p's handshake packet
+                Op::Replay { d: 65535, from },
+                Op::DeliverAll,
+            ]
+        })
+        .boxed();
     let frag = match mix {
-        Mix::Identity => prop_oneof![9 => single, 6 => attack, 1 => spoof_race].boxed(),
+        Mix::Identity => prop_oneof![18 => single, 12 => attack, 2 => spoof_race, 1 => early_replay].boxed(),
         Mix::Exemptions => prop_oneof![6 => single, 1 => attack].boxed(),
         Mix::Tamper => prop_oneof![30 => single, 6 => exchange, 1 => spoof_race].boxed(),
-        Mix::Replay => prop_oneof![30 => single, 6 => exchange, 1 => late_handshake].boxed(),
+        Mix::Replay => prop_oneof![30 => single, 6 => exchange, 1 => late_handshake, 1 => early_replay].boxed(),
         _ => single,
     };
     proptest::collection::vec(frag, 1..max_fragments)
